@@ -65,6 +65,12 @@ Example C06_former_D05_witness_holds :
   agree c = true /\ dom_of (verdict06 c) = true /\ holds_of (verdict06 c) = true
   /\ option_map e_sites (o_enc c) = Some [(0, 0)].
 Proof. vm_compute. repeat split; reflexivity. Qed.
+(* the other two constant expressions D05 named: a table initialiser `ref.func f` is re-indexed like an element item *)
+Example C06_table_initialiser_is_reindexed :
+  let c := self_r [] [11; 12; 99] [] [] [Delete SF 0] [mkSite KTableInit SF 1 ONone] in
+  agree c = true /\ dom_of (verdict06 c) = true /\ holds_of (verdict06 c) = true
+  /\ option_map e_sites (o_enc c) = Some [(0, 0)].
+Proof. vm_compute. repeat split; reflexivity. Qed.
 Example C06_former_D05_deleted_target_is_loud :
   let c := self_r [] [11; 12; 99] [] [] [Delete SF 1] [mkSite KElemExpr SF 1 ONone] in
   agree c = true /\ o_enc c = None /\ dom_of (verdict06 c) = true /\ holds_of (verdict06 c) = true.
